@@ -35,8 +35,8 @@ ASSUMPTIONS = [
     "integral = sum over voxels of data * prod(dimensions / shape), per time step and component",
 ]
 FLOORS = {
-    "quick": {"resize_conserves": 500, "resize_by_factors": 200, "resize_object_reused": 150, "resize_options_with_key_prefix": 120, "image_born_as_uint8_then_converted": 150, "refine_coarsen_identity": 100, "coarsen_conserves": 100, "axis_reduction": 400, "extrusion": 60, "superpose": 150},
-    "thorough": {"resize_conserves": 6000, "resize_by_factors": 2000, "resize_object_reused": 1500, "resize_options_with_key_prefix": 1200, "image_born_as_uint8_then_converted": 1500, "refine_coarsen_identity": 1200, "coarsen_conserves": 1200, "axis_reduction": 5000, "extrusion": 700, "superpose": 1800},
+    "quick": {"reduction_object_reused": 300, "resize_conserves": 500, "resize_by_factors": 200, "resize_object_reused": 150, "resize_options_with_key_prefix": 120, "image_born_as_uint8_then_converted": 150, "refine_coarsen_identity": 100, "coarsen_conserves": 100, "axis_reduction": 400, "extrusion": 60, "superpose": 150},
+    "thorough": {"reduction_object_reused": 3000, "resize_conserves": 6000, "resize_by_factors": 2000, "resize_object_reused": 1500, "resize_options_with_key_prefix": 1200, "image_born_as_uint8_then_converted": 1500, "refine_coarsen_identity": 1200, "coarsen_conserves": 1200, "axis_reduction": 5000, "extrusion": 700, "superpose": 1800},
 }
 
 
@@ -44,6 +44,12 @@ def shards(tier, seed):
     k = 16
     n = 100 if tier == "quick" else 1200
     return [{"shard": i, "n": n // k + 1} for i in range(k)]
+
+
+def copy_meta(img):
+    import copy
+
+    return copy.deepcopy(img.metadata())
 
 
 def integral(arr, dims, dim):
@@ -313,7 +319,23 @@ def run_shard(spec, R):
                         axis = ax if by != "name" else names[ax]
                         case = {"op": "reduce_axis", "shape": list(shape), "axis": axis, "mode": mode, "payload": payload, "dtype": np.dtype(dtype).name}
                         if by == "object":
-                            ok, red = R.guarded("reduce_axis", lambda: darsia.AxisReduction(axis=axis, dim=dim, mode=mode)(img))
+                            ar_obj = darsia.AxisReduction(axis=axis, dim=dim, mode=mode)
+                            ok, red = R.guarded("reduce_axis", lambda: ar_obj(img))
+                            if ok:
+                                # the reduction object then serves an image of the same shape on another physical
+                                # domain (other extents, another origin), and the first image once more
+                                arr_b = rng.uniform(-1, 1, size=arr.shape).astype(arr.dtype)
+                                dims_b = [float(d * rng.choice([0.5, 2.0, 3.0])) for d in dims]
+                                img_b = type(img)(arr_b.copy(), **{**copy_meta(img), "dimensions": dims_b, "origin": [float(rng.integers(-9, 10)) for _ in range(dim)]})
+                                okb, trio = R.guarded("reduce_axis", lambda: (ar_obj(img_b), darsia.reduce_axis(img_b, axis, mode), ar_obj(img)))
+                                if okb:
+                                    same = lambda u, v: (np.array_equal(u.img, v.img) and list(u.dimensions) == list(v.dimensions)  # noqa: E731
+                                                         and np.array_equal(np.asarray(u.origin, float), np.asarray(v.origin, float)) and u.space_dim == v.space_dim)
+                                    R.check(same(trio[0], trio[1]) and same(trio[2], red), "axis_reduction",
+                                            lambda: {**case, "what": "reduction object re-used on an image of the same shape with other extents and origin",
+                                                     "second_image": [list(trio[0].dimensions), np.asarray(trio[0].origin, float).tolist()],
+                                                     "fresh_reduction_of_second_image": [list(trio[1].dimensions), np.asarray(trio[1].origin, float).tolist()]}, group=f"{dim}d/{ax}/object_reused")
+                                    R.count("reduction_object_reused")
                         else:
                             ok, red = R.guarded("reduce_axis", lambda: darsia.reduce_axis(img, axis, mode))
                         if not ok:
